@@ -5,6 +5,7 @@
 
 use crate::{
     expr::{Expr, Index},
+    ruleset::Rule,
     value::Value,
     Error, Result,
 };
@@ -324,4 +325,79 @@ pub(crate) fn record_eval(
     if let Ok(mut file) = std::fs::OpenOptions::new().create(true).append(true).open(path) {
         let _ = file.write_all(line.as_bytes());
     }
+}
+
+fn append(line: String) {
+    let Some(path) = std::env::var_os("REVAL_VERIF_TRACE") else {
+        return;
+    };
+    let _guard = LOCK.lock();
+    if let Ok(mut file) = std::fs::OpenOptions::new().create(true).append(true).open(path) {
+        let _ = file.write_all(line.as_bytes());
+    }
+}
+
+/// Append one record for a call of `Expr::parse`
+pub(crate) fn record_parse_expr(input: &str, result: &std::result::Result<Expr, crate::parse::Error>) {
+    let mut line = String::from("{\"parse\":\"expr\",\"text\":");
+    text(input, &mut line);
+    line.push_str(",\"x\":");
+    match result {
+        Ok(e) => {
+            line.push_str("{\"ok\":true,\"t\":");
+            expr(e, &mut line);
+            line.push('}');
+        }
+        Err(_) => line.push_str("{\"ok\":false}"),
+    }
+    line.push_str("}\n");
+    append(line);
+}
+
+/// Append one record for a call of `Rule::parse`
+pub(crate) fn record_parse_rule(input: &str, result: &std::result::Result<Rule, crate::parse::Error>) {
+    let mut line = String::from("{\"parse\":\"rule\",\"text\":");
+    text(input, &mut line);
+    line.push_str(",\"rule\":");
+    match result {
+        Ok(rule) => {
+            line.push_str("{\"k\":\"ok\",\"name\":");
+            text(rule.name(), &mut line);
+            line.push_str(",\"meta\":[");
+            for (i, (key, item)) in rule.iter_metadata().enumerate() {
+                if i > 0 {
+                    line.push(',');
+                }
+                line.push('[');
+                text(key, &mut line);
+                line.push(',');
+                value(item, &mut line);
+                line.push(']');
+            }
+            line.push_str("],\"expr\":");
+            expr(rule.expr(), &mut line);
+            line.push('}');
+        }
+        Err(crate::parse::Error::MissingRuleName) => line.push_str("{\"k\":\"missing\"}"),
+        Err(_) => line.push_str("{\"k\":\"parse\"}"),
+    }
+    line.push_str("}\n");
+    append(line);
+}
+
+thread_local! {
+    static IN_PARSE: std::cell::Cell<bool> = const { std::cell::Cell::new(false) };
+}
+
+/// True while a parse call is being recorded on this thread: the recording wrapper calls the parse function
+/// itself, so the recorded result is the one the unmodified code path produces
+pub(crate) fn in_parse() -> bool {
+    IN_PARSE.with(|flag| flag.get())
+}
+
+pub(crate) fn within_parse<T>(f: impl FnOnce() -> T) -> T {
+    IN_PARSE.with(|flag| flag.set(true));
+    let result = f();
+    IN_PARSE.with(|flag| flag.set(false));
+    result
 }
